@@ -330,7 +330,8 @@ def subcircuit_cases(draw, tier):
     nl = draw(gen.netlists(min_inputs=1, max_inputs=5, min_gates=2, max_gates=18 if tier == 'thorough' else 14,
                            max_arity=3, styles=('plain', 'mixed'), min_outputs=1, max_outputs=4))
     fault = draw(st.sampled_from(['none', 'none', 'none', 'unlisted_fanout', 'unlisted_fanout', 'unlisted_fanout', 'non_input_mapped',
-                                  'missing_input', 'label_collision', 'overlap_keys', 'unread_unmapped_input', 'downstream_input']))
+                                  'missing_input', 'label_collision', 'overlap_keys', 'unread_unmapped_input', 'downstream_input',
+                                  'crossed_output_labels']))
     grow = [draw(st.integers(0, 40)) for _ in range(draw(st.integers(0, 6)))]
     if fault == 'unlisted_fanout' and draw(st.integers(0, 3)) != 0:
         # a cut point that reads an interior gate of the cone (non-convex cut) next to an unlisted fan-out
@@ -520,6 +521,18 @@ def check_subcircuit(case):
             rn = lambda x: outside[0] if x == victim else x
             rep = {'inputs': rep['inputs'], 'gates': [[rn(l), t, [rn(o) for o in op]] for l, t, op in rep['gates']],
                    'outputs': rep['outputs']}
+            applied = fault
+    elif fault == 'crossed_output_labels' and len(need_out) >= 2 and case['label_mode'] == 'fresh':
+        # the replacement's outputs carry the labels of the host's cone outputs - crossed over: the one standing in for
+        # need_out[i] is called need_out[i+1].  Equivalent under the stated correspondence; to be carried out right or refused
+        k2 = len(need_out)
+        ren = {outputs_mapping[v]: need_out[(i + 1) % k2] for i, v in enumerate(need_out)}
+        if len(set(ren)) == k2 and not (set(ren.values()) & {g[0] for g in rep['gates']}):
+            rn = lambda x: ren.get(x, x)
+            rep = {'inputs': [rn(x) for x in rep['inputs']], 'gates': [[rn(l), t, [rn(o) for o in op]] for l, t, op in rep['gates']],
+                   'outputs': [rn(x) for x in rep['outputs']]}
+            for v in need_out:
+                outputs_mapping[v] = rn(outputs_mapping[v])
             applied = fault
     elif fault == 'unread_unmapped_input':
         # the replacement declares one more input that nothing in it reads and that has no counterpart in the host
